@@ -81,26 +81,63 @@ Theorem c12_presorted_invariant : forall (ops : list op) (s : pset), ps_wf s ->
 Proof. exact ps_run_refines. Qed.
 Print Assumptions c12_presorted_invariant.
 
-(* ... in particular for a set built by the array constructor from a sorted table (non-empty, or
-   with a positive reserve), and for the empty set with a positive reserve. *)
+(* ... in particular for a set built by the array constructor from a sorted table with ANY reserve
+   (0 included: calc_reserve keeps at least one slot since 432f45d), and for the explicit
+   constructor with any size and reserve (an empty set with room, since a311e58). *)
 Theorem c12_presorted_refines : forall (tab : list elem) (reserve : nat) (ops : list op),
-  keys_sorted tab = true -> (tab <> [] \/ 0 < reserve) ->
+  keys_sorted tab = true ->
   exists s' rs, ps_run (ps_init_array tab reserve) ops = Some (s', rs) /\
     map fst rs = spec_run tab ops /\
     Forall (fun x => snd (fst x) <= snd x) rs.
 Proof. exact presorted_refines_lemma. Qed.
 Print Assumptions c12_presorted_refines.
 
-Theorem c12_presorted_empty_refines : forall (reserve : nat) (ops : list op), 0 < reserve ->
-  exists s' rs, ps_run (ps_init_explicit 0 reserve) ops = Some (s', rs) /\
+Theorem c12_presorted_explicit_refines : forall (sz reserve : nat) (ops : list op),
+  exists s' rs, ps_run (ps_init_explicit sz reserve) ops = Some (s', rs) /\
     map fst rs = spec_run [] ops /\
     Forall (fun x => snd (fst x) <= snd x) rs.
-Proof. exact presorted_empty_refines_lemma. Qed.
-Print Assumptions c12_presorted_empty_refines.
+Proof. exact presorted_explicit_refines_lemma. Qed.
+Print Assumptions c12_presorted_explicit_refines.
+
+(* Sets built by the hash-array constructor (every message's field-trait set; since b713cdd the
+   first insert detaches the hash array and positions come from the sorted array).  Constructor
+   precondition: a non-empty table strictly sorted by non-negative key.  PARTIAL in the history:
+   [hist_ok HIntact tab ops] = while the hash array is still attached, find(key, answer) is only
+   asked for present keys and no lookup happens between a clear() and the next insert; every
+   history is allowed from the first insert on. *)
+Theorem c12_presorted_hash_partial : forall (tab : list elem) (ops : list op),
+  keys_sorted tab = true -> nonneg_keys (map fst tab) = true -> tab <> [] ->
+  hist_ok HIntact tab ops = true ->
+  exists s' rs, ps_run (ps_init_hash tab) ops = Some (s', rs) /\
+    map fst rs = spec_run tab ops /\
+    Forall (fun x => snd (fst x) <= snd x) rs.
+Proof. exact presorted_hash_refines_lemma. Qed.
+Print Assumptions c12_presorted_hash_partial.
+
+(* the same from any reachable state: detached (ps_wf), hash array attached, or cleared while attached *)
+Theorem c12_presorted_general : forall (ops : list op) (s : pset) (m : hmode),
+  inv s m -> hist_ok m (abs s) ops = true ->
+  exists s' rs, ps_run s ops = Some (s', rs) /\ map fst rs = spec_run (abs s) ops /\
+                Forall (fun x => snd (fst x) <= snd x) rs.
+Proof. exact ps_run_refines_gen. Qed.
+Print Assumptions c12_presorted_general.
+
+(* REFUTED (what the repairs do not cover): with the hash array attached find(key, answer) reports a
+   null position for an absent key, and after clear() the stale hash array still finds a cleared key. *)
+Theorem c12_hash_residual_refuted :
+  let s := ps_init_hash [(1, 0); (5, 0); (9, 0)]%Z in
+  ps_step s (OFindA 2%Z) = Some (s, RFindA None false) /\
+  fst (spec_step [(1, 0); (5, 0); (9, 0)]%Z (OFindA 2%Z)) = [(1, 0); (5, 0); (9, 0)]%Z /\
+  snd (spec_step [(1, 0); (5, 0); (9, 0)]%Z (OFindA 2%Z)) = RFindA (Some 1) false /\
+  (exists s1 rs, ps_run s [OClear; OFind 5%Z] = Some (s1, rs) /\
+                 map fst rs = [(RClear, 0); (RFind (Some 1), 0)] /\
+                 spec_run [(1, 0); (5, 0); (9, 0)]%Z [OClear; OFind 5%Z] = [(RClear, 0); (RFind None, 0)]).
+Proof. exact hash_residual_refuted_lemma. Qed.
+Print Assumptions c12_hash_residual_refuted.
 
 (* ... so the oracle accepts every history of the model. *)
 Theorem c12_presorted_oracle : forall (tab : list elem) (reserve : nat) (ops : list op),
-  keys_sorted tab = true -> (tab <> [] \/ 0 < reserve) ->
+  keys_sorted tab = true ->
   exists s' rs, ps_run (ps_init_array tab reserve) ops = Some (s', rs) /\ c12_ps_ok tab ops (map fst rs) = true.
 Proof. exact presorted_oracle_lemma. Qed.
 Print Assumptions c12_presorted_oracle.
@@ -134,23 +171,28 @@ Theorem c12_insert_stale_orig_refuted :
 Proof. exact stale_orig_refuted_lemma. Qed.
 Print Assumptions c12_insert_stale_orig_refuted.
 
-(* REFUTED (corner constructors): an empty set with reserve 0 writes past its zero-length block
-   on the first insert; a set built by the hash-array constructor faults on inserting an absent
-   key (null insert position, uninitialised _rsz) while lookups and duplicate inserts work; the
-   explicit constructor with a non-zero size claims elements it never allocated. *)
-Theorem c12_reserve0_refuted : ps_run (ps_init_explicit 0 0) [OInsert (1, 0)%Z] = None.
-Proof. exact reserve0_refuted_lemma. Qed.
-Print Assumptions c12_reserve0_refuted.
+(* The three constructor defects as they were before the repairs (kept as witnesses), each next to
+   the current behaviour: reserve 0 on an empty set (before 432f45d: _rsz = 0, the first insert
+   writes past a zero-length block); insert of a new key into a hash-built set (before b713cdd: null
+   position and uninitialised _rsz); the explicit constructor with a size (before a311e58: _sz = sz
+   over a null array). *)
+Theorem c12_reserve0_orig_refuted :
+  ps_insert (ps_init_explicit_orig 0 0) (1, 0)%Z = None /\
+  (exists s', ps_insert (ps_init_explicit 0 0) (1, 0)%Z = Some (s', RInsert true (Some 0) false)).
+Proof. exact reserve0_orig_refuted_lemma. Qed.
+Print Assumptions c12_reserve0_orig_refuted.
 
-Theorem c12_hash_insert_refuted :
-  ps_run (ps_init_hash [(1, 0); (5, 0)]%Z) [OFind 5%Z; OInsert (5, 1)%Z] <> None /\
-  ps_run (ps_init_hash [(1, 0); (5, 0)]%Z) [OInsert (2, 0)%Z] = None.
-Proof. exact hash_insert_refuted_lemma. Qed.
-Print Assumptions c12_hash_insert_refuted.
+Theorem c12_hash_insert_orig_refuted :
+  ps_insert_gen true (ps_init_hash_orig [(1, 0); (5, 0)]%Z) (2, 0)%Z = None /\
+  (exists s', ps_insert (ps_init_hash [(1, 0); (5, 0)]%Z) (2, 0)%Z = Some (s', RInsert true (Some 1) false) /\
+              abs s' = [(1, 0); (2, 0); (5, 0)]%Z).
+Proof. exact hash_insert_orig_refuted_lemma. Qed.
+Print Assumptions c12_hash_insert_orig_refuted.
 
-Theorem c12_explicit_size_refuted : ps_run (ps_init_explicit 3 30) [OFind 1%Z] = None.
-Proof. exact explicit_size_refuted_lemma. Qed.
-Print Assumptions c12_explicit_size_refuted.
+Theorem c12_explicit_size_orig_refuted :
+  ps_find (ps_init_explicit_orig 3 30) 1%Z = None /\ ps_find (ps_init_explicit 3 30) 1%Z = Some None.
+Proof. exact explicit_size_orig_refuted_lemma. Qed.
+Print Assumptions c12_explicit_size_orig_refuted.
 
 (* Non-vacuity: a concrete history with hits, misses, a duplicate insert, a range insert that
    stops at a duplicate, clear and re-insert. *)
